@@ -13,6 +13,8 @@ for f in sorted(glob.glob(os.path.join(HERE, 'seeded', '*', 'meta.json'))):
             if 'kind=' in l:
                 kinds.append('%s: %s' % (c, l.split('kind=')[1].split(' ')[0]))
                 break
+        else:
+            kinds.append('%s: replayed VIOLATION' % c)
     status = ', '.join(kinds) if kinds else ('NOT DETECTED (' + ', '.join('%s exit %s' % (c, r['exit']) for c, r in checks.items()) + ')')
     conf = m.get('confirmed') or {}
     rows.append((tag, m.get('breaks_property'), (m.get('what') or '').replace('|', '/').replace('\n', ' ')[:230],
